@@ -11,14 +11,15 @@ Definition uniq_pos (l : list Z) : Prop := NoDup l ∧ ∀ i, i ∈ l → 0 < i.
     entities over several maps, and of the fixup table of any one entity: in every map [m] the IDs of each kind
     are pairwise distinct and positive, and so are the replaceNN indexes. *)
 Theorem all_kinds_unique (hn : list tev) (hg hv : list wev) (hm : list mev) (fl : list (Z * Z)) (fo : list fxop)
-    (ra rd : bool) (m : nat) :
-  let wn := trun false false false true true true hn in
+    (ra rd : bool) (m : nat) (prog : list pstep) :
+  prog_ok prog = true →
+  let wn := trun false false false true true true prog hn in
   uniq_pos (live_ids_in m (tE wn)) ∧ uniq_pos (live_ids_in m (tS wn)) ∧ uniq_pos (live_ids_in m (tF wn)) ∧
   uniq_pos (live_ids_in m (wrun false true hg)) ∧ uniq_pos (live_ids_in m (wrun false true hv)) ∧
   uniq_pos (nids (nents (mmap (mrun ra false rd true hm) m))) ∧
   FxInv (fx_hist true true fl fo).
 Proof.
-  intros wn. destruct (trun_unique hn m) as (HE & HS & HF).
+  intros Hp wn. destruct (trun_unique prog hn m Hp) as (HE & HS & HF).
   split; [exact HE|]. split; [exact HS|]. split; [exact HF|].
   split; [exact (world_live_ids_nodup_pos hg m)|]. split; [exact (world_live_ids_nodup_pos hv m)|].
   split; [exact (node_maps_ids_nodup_pos ra rd hm m)|]. exact (fx_hist_inv fl fo).
